@@ -560,7 +560,8 @@ class CDSInterval(AbstractFeatureInterval):
             chromosome_end = self.end
         cds_interval = self.sequence_interval_to_cds(chromosome_start, chromosome_end, Strand.PLUS)
         adjusted_cds_start = cds_interval.start - (cds_interval.start % 3)
-        adjusted_cds_end = cds_interval.end - (cds_interval.end % -3)
+        # round up to the next codon boundary, but never past the end of a CDS whose length is not a multiple of 3
+        adjusted_cds_end = min(cds_interval.end - (cds_interval.end % -3), len(self.chromosome_location))
         chromosome_interval = self.cds_interval_to_sequence(adjusted_cds_start, adjusted_cds_end, Strand.PLUS)
         return chromosome_interval.start, chromosome_interval.end
 
